@@ -154,7 +154,8 @@ class Default(AgentStagingInputComponent):
             self._prof.prof('staging_in_start', uid=uid, msg=did)
 
             # agent stager only handles local actions
-            if action not in [rpc.COPY, rpc.LINK, rpc.MOVE, rpc.DOWNLOAD]:
+            if action not in [rpc.COPY, rpc.LINK, rpc.MOVE, rpc.DOWNLOAD,
+                              rpc.TARBALL]:
                 self._prof.prof('staging_in_skip', uid=uid, msg=did)
                 continue
 
@@ -179,6 +180,14 @@ class Default(AgentStagingInputComponent):
                 assert tgt.schema == 'file', 'staging tgt expected as file://'
 
             if action == rpc.TARBALL:
+
+                # The client side stager packs all TARBALL directives of the
+                # task into one tarball and appends one directive for that
+                # tarball (`task:///<uid>.tar`).  Only that directive triggers
+                # the extraction, the original directives are covered by it.
+                if os.path.basename(tgt.path) != '%s.tar' % uid:
+                    self._prof.prof('staging_in_skip', uid=uid, msg=did)
+                    continue
 
                 # If somethig was staged via the tarball method, the tarball is
                 # extracted and then removed from the task folder.  The target
